@@ -111,6 +111,15 @@ class EventRecorder:
                 self.by_tok[tok] = fid
             op = OPCLASS.get(code.co_code[lasti], "other")
             coro = bool(code.co_flags & inspect.CO_COROUTINE)
+            if code.co_flags & inspect.CO_ASYNC_GENERATOR and op == "yieldValue":
+                # an asynchronous generator suspends at its awaits and at its yields; CPython hands a yielded value over wrapped
+                # in an internal object (and an awaited one bare): the model's `coro` flag stands for "this suspension is an await"
+                if type(arg).__name__ == "async_generator_wrapped_value":
+                    import gc
+                    (arg,) = gc.get_referents(arg)
+                    coro = False
+                else:
+                    coro = True
             sem = {"retValue": "returned", "retConst": "returned", "other": "raised"}.get(op) or ("awaited" if coro else "yielded")
             self.events.append(("ret", str(fid), str(cid), op, "true" if coro else "false", sem, self.ty(arg)))
             if sem in ("returned", "raised"):
